@@ -34,6 +34,8 @@ lock methods and break_lock; (K4 call ownership) lock_read/lock_write/unlock of 
 only from those methods; (count lint) the counters are compared only with the constants 0 and 1, which makes depth 4
 representative of all depths. Calls on other objects are neutral (listed in evidence); branching on their results is
 an analysis error, not a guess.
+K8-overunlock-leaves-others: an unlock() that releases another lockable in a finally clause refuses up front when not held or
+conditions that release on its own state captured before (weave_fmt's all-in-one formats tabled).
 Added while testing against seeded changes: K8-failed-release-forgets: a failing physical unlock on the last unlock
 propagates and leaves CountedLock / LockableFiles unlocked; K3-acquisition-unwinds: (git sibling: GitWorkingTree._lock_write_tree records mode/count only after index.lock is held;) DirStateWorkingTree.lock_read /
 _lock_self_write release the control-files lock and the branch when a later acquisition step fails.
@@ -408,6 +410,37 @@ def run(ctx):
     ggx = gg.without_exc_edges()
     early = sorted(i for i in setg if set(acqg) & ggx.reach([i]))
     ctx.check("K3-acquisition-unwinds", whereg, bool(setg) and not early, "the lock mode/count are recorded only after index.lock was obtained", construct="; ".join(gg.nodes[i].text() for i in early), message="GitWorkingTree._lock_write_tree records the write lock (" + "; ".join(gg.nodes[i].text() for i in early) + ") before it tries to take index.lock: when that is refused (LockContention) the object still claims to be write-locked, later lock calls only bump the count and never hold the lock file")
+    # ---- composite locks: an unmatched unlock is refused *and* leaves the other object's lock alone ----------------------
+    # An unlock() that releases another lockable (branch -> repository, tree -> branch) on the way out of its own release
+    # — in a `finally:` around it, i.e. also when its own release was refused with LockNotHeld — must either refuse up front
+    # when it is not held, or condition that release on its own state captured before.  Otherwise `x.unlock()` on an
+    # unlocked x raises and still takes away a lock somebody else holds on the shared repository / branch object.
+    OTHER = ("self.repository", "self.branch", "self._repository")
+    ALL_IN_ONE = {"breezy/plugins/weave_fmt/branch.py": "all-in-one formats: branch, repository and tree share one control-files object, their counts are not separable", "breezy/plugins/weave_fmt/workingtree.py": "all-in-one formats (see branch.py)"}
+    n_comp = 0
+    for rel_ in repo.python_files():
+        if "def unlock" not in repo.text(rel_):
+            continue
+        for q_, f_ in repo.module(rel_).functions().items():
+            if not q_.endswith(".unlock") or "." not in q_:
+                continue
+            in_finally = [c for t in ast.walk(f_) if isinstance(t, ast.Try) for st in t.finalbody for c in ast.walk(st) if isinstance(c, ast.Call) and call_attr(c) == "unlock" and call_recv(c) in OTHER]
+            if not in_finally:
+                continue
+            n_comp += 1
+            if rel_ in ALL_IN_ONE:
+                ctx.info("K8-overunlock-leaves-others", f"{rel_}:{q_}", f"tabled exception: {ALL_IN_ONE[rel_]}")
+                continue
+            body = [st for st in f_.body if not (isinstance(st, ast.Expr) and isinstance(st.value, ast.Constant))]
+            first = body[0] if body else None
+            guard_first = isinstance(first, ast.If) and any(isinstance(x, (ast.Raise, ast.Return)) for x in first.body) and any(k in norm(first.test) for k in ("_lock_count", "_lock_mode", "is_locked"))
+            tries = [t for t in ast.walk(f_) if isinstance(t, ast.Try) and t.finalbody]
+            first_try = min((t.lineno for t in tries), default=10**9)
+            pre_state = {norm(a.targets[0]) for a in walk_own(f_) if isinstance(a, ast.Assign) and isinstance(a.targets[0], ast.Name) and any(k in norm(a.value) for k in ("is_locked()", "_lock_count", "_lock_mode")) and a.lineno < first_try}
+            cond_ok = bool(pre_state) and all(any(isinstance(i_, ast.If) and any(x is c for s_ in i_.body for x in ast.walk(s_)) and any(isinstance(nm, ast.Name) and nm.id in pre_state for nm in ast.walk(i_.test)) for i_ in ast.walk(f_)) for c in in_finally)
+            others = sorted({call_recv(c) for c in in_finally})
+            ctx.check("K8-overunlock-leaves-others", f"{rel_}:{q_}", guard_first or cond_ok, f"{q_}: an unmatched unlock cannot reach {others}.unlock()", construct="; ".join(f"L{c.lineno}:{norm(c)}" for c in in_finally), message=f"{q_} unlocks {others} in a finally clause even when it was not locked itself (no not-held guard up front, and the release is not conditioned on its own state before the unlock): `x.unlock()` on an unlocked object is refused with LockNotHeld and nevertheless takes away a lock somebody else holds on the shared {others[0].split('.')[-1].lstrip('_')} object — its physical lock is released before the matching last unlock")
+    ctx.require(n_comp >= 5, f"only {n_comp} unlock methods releasing another lockable in a finally clause found (hand-confirmed: 6)")
     ctx.extra["typestate"] = stats
     ctx.extra["states"] = sum(s["states"] for s in stats.values())
     ctx.extra["transitions"] = sum(s["transitions"] for s in stats.values())
@@ -420,6 +453,8 @@ LF = "breezy/bzr/lockable_files.py"
 PR = "breezy/bzr/pack_repo.py"
 
 MUTANTS = [
+    Mutant("branch unlock releases the repository unconditionally again", "breezy/bzr/branch.py", "            if was_locked and not self.control_files.is_locked():\n", "            if not self.control_files.is_locked():\n", expect="K8-overunlock-leaves-others"),
+    Mutant("remote branch unlock loses its not-held guard", "breezy/bzr/remote.py", "        \"\"\"Release the lock on this branch.\"\"\"\n        if not self._lock_count:\n            return lock.cant_unlock_not_held(self)\n", "        \"\"\"Release the lock on this branch.\"\"\"\n", expect="K8-overunlock-leaves-others"),
     Mutant("git tree records the write lock before taking index.lock", "breezy/git/workingtree.py", "        if not self._lock_mode:\n            try:\n                self._index_file = GitFile(", "        if not self._lock_mode:\n            self._lock_mode = \"w\"\n            self._lock_count = 1\n            try:\n                self._index_file = GitFile(", expect="K3-acquisition-unwinds"),
     Mutant("dirstate lock failure leaves the control files locked", "breezy/bzr/workingtree_4.py", "                self._repo_supports_tree_reference = getattr(\n                    self.branch.repository._format, \"supports_tree_reference\", False\n                )\n            except BaseException:\n                self._control_files.unlock()\n                raise\n        except BaseException:\n            self.branch.unlock()\n            raise\n        return LogicalLockResult(self.unlock)", "                self._repo_supports_tree_reference = getattr(\n                    self.branch.repository._format, \"supports_tree_reference\", False\n                )\n            except BaseException:\n                raise\n        except BaseException:\n            self.branch.unlock()\n            raise\n        return LogicalLockResult(self.unlock)", expect="K3-acquisition-unwinds", count=2),
     Mutant("CountedLock releases before forgetting the lock", "breezy/counted_lock.py", "            self._lock_mode = None\n            self._lock_count -= 1\n            self._real_lock.unlock()\n", "            self._real_lock.unlock()\n            self._lock_mode = None\n            self._lock_count -= 1\n", expect="K8-failed-release-forgets"),
